@@ -79,6 +79,10 @@ func (g *setGen) genField(field *protogen.Field) {
 	case protoreflect.BytesKind:
 		g.P(fieldRef, " = value.Bytes()")
 	case protoreflect.MessageKind, protoreflect.GroupKind:
+		// an empty, read-only (nil) message must not be stored: protoreflect requires Set to panic
+		g.P("if !value.Message().IsValid() {")
+		g.P("panic(", fmtPkg.Ident("Errorf"), "(\"field ", field.Desc.FullName(), ": cannot set an invalid (empty, read-only) message\"))")
+		g.P("}")
 		g.P(fieldRef, " = value.Message().Interface().(*", g.QualifiedGoIdent(field.Message.GoIdent), ")")
 	}
 
